@@ -76,6 +76,8 @@ def family(tier):
         # one-shot timeout
         add("os" + r, L("ab", ["(one-shot 3 lsft)", "y"], red=red), "ab", 3,
             constraint="OsB", extra_defs="OsB == Len(K.L.os.keys) <= 2 /\\ Len(K.L.os.other) <= 2 /\\ Len(K.L.os.released) <= 2")
+    # last_press_tracker.tap_hold_timeout outliving everything else: tap-repress window 5 > hold timeout 2
+    add("thtt", L("ab", ["(tap-hold 5 2 x lsft)", "y"]), "ab", 5)
     # active sequences (macro with a delay)
     add("macro", L("ab", ["(macro x 2 S-y)", "z"]), "ab", 3)
     # tap-dance-eager
@@ -683,7 +685,7 @@ def run(tier, seed):
                           "conts": rng.sample(conts, min(len(conts), 3)), "rest": 40, "tail": 3 * tmax + 12, "block": True})
         pairs.add(f["kbd"], {}, cases, "rnd:" + f["name"])
     res.extra["model_nonstutter_states"] = n_ns
-    res.extra["model_nonstutter_states_not_explained_by_pause"] = n_nsx
+    res.extra["model_nonstutter_states_not_covered_by_a_recorded_finding"] = n_nsx
     pairs.record("l1")
     judges = [pairs]
 
